@@ -374,6 +374,28 @@ CLAIMS["C04"] = dict(
               "concrete replay with a plain-Python oracle",
     ref="3/C04")
 
+CLAIMS["C13"] = dict(
+    text="Real RTDCWriter (store_metadata, store_feature, "
+         "write_image_grayscale, rectify_metadata) writes files with "
+         "complete (also stale) metadata into the HDF5 model; 0, 1 or 2 "
+         "corruptions with SYMBOLIC parameters (new feature length, event "
+         "count, ROI size, index value, channel/laser/sample counts, laser "
+         "power, set-up values; missing mandatory keys, unknown features, "
+         "external link / virtual / external dataset) are applied; the real "
+         "IntegrityChecker.check runs on a reader view; z3 proves on every "
+         "path that the violation cues are exactly those an independent "
+         "specification derives from the corrupted state, that the checker "
+         "never crashes, and that the real rtdc_copy's output gets the same "
+         "violations.",
+    note="Trusted: z3, symx, h5py stand-in, reader view (validated by "
+         "replaying on real files with real h5py incl. external links). "
+         "Only violations are specified (not alerts/info); tdms, ancillary "
+         "features, CLI exit code mapping and h5repack are outside.",
+    technique="symbolic execution of the real Python code objects "
+              "(writer -> corruption -> checker) + z3 (LIA/LRA) against an "
+              "independent specification; concrete replay on real HDF5",
+    ref="3/C13")
+
 NOT_APPLICABLE = {
 }
 
